@@ -256,7 +256,10 @@ class _StepGraph:
         Args:
             path: The path to the step in the hierarchy.
         """
-        self._sequential_steps.append(path)
+        if path not in self._sequential_steps:
+            # a step that is replaced in place keeps its position; it is
+            # not queued a second time
+            self._sequential_steps.append(path)
         self._validate()
 
     def get_execution_layers(self) -> List[List[HierarchyPath]]:
